@@ -182,7 +182,7 @@ def m_collect(n, name, kind=None, use_conv=False):
     """kind: None | 'F' (functions only) | 'M' (methods only) - the filter
     runner.call applies; exclusivity does not depend on it."""
     out = []
-    for layer in layers(n):
+    for depth, layer in enumerate(layers(n)):
         labels = []
         objs = set()
         seen = set()
@@ -195,7 +195,15 @@ def m_collect(n, name, kind=None, use_conv=False):
                 continue
             seen.add(id(p))
             for e in p.cell.funcs.get(key, []):
-                if kind is not None and \
+                if kind == 'NEAREST':
+                    # a predicate that looks at its second argument: only
+                    # the layer the lookup started at passes
+                    if depth != 0:
+                        continue
+                elif kind == 'FARTHER':
+                    if depth == 0:
+                        continue
+                elif kind is not None and \
                         kind not in KINDS[e['label'].split('/')[0]]:
                     continue
                 if e['obj'] is not None and id(e['obj']) in objs:
@@ -616,7 +624,9 @@ def compare_all(nodes, stats):
                             {'ctx': i, 'name': fname, 'expected': list(exp),
                              'got': list(got)})
                 for kind, pred in (('F', lambda fd, ctx: fd.is_function),
-                                   ('M', lambda fd, ctx: fd.is_method)):
+                                   ('M', lambda fd, ctx: fd.is_method),
+                                   ('NEAREST', lambda fd, ctx: ctx is c),
+                                   ('FARTHER', lambda fd, ctx: ctx is not c)):
                     exp = m_collect(n, fname, kind)
                     got = [sorted(label(fd) for fd in layer)
                            for layer in c.collect_functions(fname, pred)]
